@@ -201,6 +201,7 @@ bool Reset::doEquals(const EntityPtr &other) const
     if (Entity::doEquals(other)) {
         auto reset = std::dynamic_pointer_cast<Reset>(other);
         if ((reset != nullptr) && pFunc()->mOrder == reset->order()
+            && pFunc()->mOrderSet == reset->isOrderSet()
             && areEqual(pFunc()->mResetValue, reset->resetValue())
             && pFunc()->mResetValueId == reset->resetValueId()
             && areEqual(pFunc()->mTestValue, reset->testValue())
